@@ -387,3 +387,126 @@ pub fn bytes(t: &mut Tape, len: usize) -> Vec<u8> {
     }
     out
 }
+
+// ------------------------------------------------------------------------------------------------
+// dictionary of integer literals harvested from the code under test
+
+/// Integer literals (>= 2^16, <= u64::MAX) that occur in the non-test source of crypto-bigint
+/// (`$VERIF_REPO/src`, default /repo/src), read at run time from the current working tree. The same
+/// idea as a fuzzer dictionary: a comparison against, or a special treatment of, a "magic" word is
+/// invisible to random and edge-shaped limbs but trivially reached once the word itself is used as
+/// (or solved into) an operand limb. Sorted, without duplicates; empty when the directory is missing.
+pub fn source_literals() -> &'static [u64] {
+    static LITS: std::sync::OnceLock<Vec<u64>> = std::sync::OnceLock::new();
+    LITS.get_or_init(|| {
+        let root = std::env::var("VERIF_REPO").unwrap_or_else(|_| "/repo".to_string());
+        let mut out = std::collections::BTreeSet::new();
+        let mut stack = vec![std::path::PathBuf::from(root).join("src")];
+        while let Some(dir) = stack.pop() {
+            let Ok(rd) = std::fs::read_dir(&dir) else { continue };
+            let mut entries: Vec<_> = rd.filter_map(|e| e.ok()).map(|e| e.path()).collect();
+            entries.sort();
+            for p in entries {
+                if p.is_dir() {
+                    stack.push(p);
+                } else if p.extension().map(|e| e == "rs").unwrap_or(false) {
+                    if let Ok(text) = std::fs::read_to_string(&p) {
+                        // unit tests sit in a trailing `#[cfg(test)]` module
+                        let code = text.split("#[cfg(test)]").next().unwrap_or("");
+                        scan_literals(code, &mut out);
+                    }
+                }
+            }
+        }
+        out.into_iter().collect()
+    })
+}
+
+fn scan_literals(code: &str, out: &mut std::collections::BTreeSet<u64>) {
+    let b = code.as_bytes();
+    let mut i = 0;
+    let is_ident = |c: u8| c.is_ascii_alphanumeric() || c == b'_';
+    while i < b.len() {
+        // comments carry prose, not code
+        if b[i] == b'/' && i + 1 < b.len() && b[i + 1] == b'/' {
+            while i < b.len() && b[i] != b'\n' {
+                i += 1;
+            }
+            continue;
+        }
+        if b[i].is_ascii_digit() && (i == 0 || !(is_ident(b[i - 1]) || b[i - 1] == b'.')) {
+            let start = i;
+            let (radix, mut j) = if b[i] == b'0' && i + 1 < b.len() && (b[i + 1] == b'x' || b[i + 1] == b'X') { (16u32, i + 2) } else { (10u32, i) };
+            let mut v: u128 = 0;
+            let mut digits = 0;
+            let mut overflow = false;
+            while j < b.len() {
+                let c = b[j];
+                if c == b'_' {
+                    j += 1;
+                    continue;
+                }
+                match (c as char).to_digit(radix) {
+                    Some(d) => {
+                        v = match v.checked_mul(radix as u128).and_then(|x| x.checked_add(d as u128)) {
+                            Some(x) => x,
+                            None => {
+                                overflow = true;
+                                0
+                            }
+                        };
+                        digits += 1;
+                        j += 1;
+                    }
+                    None => break,
+                }
+            }
+            if digits > 0 && !overflow && v >= 1 << 16 {
+                if v <= u64::MAX as u128 {
+                    out.insert(v as u64);
+                } else {
+                    // a 128-bit literal: both halves
+                    out.insert(v as u64);
+                    out.insert((v >> 64) as u64);
+                }
+            }
+            i = j.max(start + 1);
+            // skip a type suffix / the rest of an identifier-like token
+            while i < b.len() && is_ident(b[i]) {
+                i += 1;
+            }
+            continue;
+        }
+        i += 1;
+    }
+}
+
+/// One case in twelve: a limb of the pair is tied to an integer literal K harvested from the source
+/// of crypto-bigint (`source_literals`, a fuzzer-style dictionary; K, K + 1 or K - 1): an
+/// operand limb equals K, or a_i + b_i = K, or a_i - b_i = K, or b_i - a_i = K (limb-wise, before
+/// carries / borrows). A special treatment of one "magic" word — in an operand, a sum or a difference
+/// limb — is out of reach of random and edge-shaped limbs but not of this.
+pub fn dict_salt(t: &mut Tape, a: &mut [u64], b: &mut [u64]) {
+    if !t.chance(1, 12) {
+        return;
+    }
+    let d = source_literals();
+    let n = a.len().min(b.len());
+    if d.is_empty() || n == 0 {
+        return;
+    }
+    let k = d[t.index(d.len())];
+    let k = match t.below(3) {
+        0 => k,
+        1 => k.wrapping_add(1),
+        _ => k.wrapping_sub(1),
+    };
+    let i = t.index(n);
+    match t.below(4) {
+        0 => b[i] = k.wrapping_sub(a[i]),
+        1 => b[i] = a[i].wrapping_sub(k),
+        2 => a[i] = k,
+        _ => b[i] = a[i].wrapping_add(k),
+    }
+}
+
